@@ -217,6 +217,8 @@ DEFAULT_CFG = {
     "wall_jumps": False,
     "ra_ticks": 2,
     "frac": 0.0,
+    "loop": False,               # async entry points run as Tasks on the virtual event loop
+    "attempt_timeout": None,     # ticks: attempt_timeout_s (sync: owned executor; async: needs loop)
     "nest": None,                # {"site": "aend"|"metric"|"strategy", "entry": ..., "script": [...]}:
                                  # at that callback a whole nested call on the SAME policy object may
                                  # run (choice point, 1 deviation) - single-threaded overlap of calls
@@ -262,6 +264,12 @@ class World:
         if cfg["wall_jumps"]:
             self.clock.wall_hook = self._wall
         self.clock.sleep_hook = self._default_sleep
+        self.loop = None
+        if cfg["loop"]:
+            from .vloop import VLoop
+            self.loop = VLoop(self.clock)
+        if cfg["attempt_timeout"] is not None:
+            _install_fake_executor(self)
         self._build_shared()
 
     # -- registry ------------------------------------------------------------------------
@@ -400,7 +408,7 @@ class World:
         spec = getattr(exc, "spec", None)
         i = self.ident(exc)
         if spec is None:
-            klass, ra = "U", None
+            klass, ra = ("T" if isinstance(exc, TimeoutError) else "U"), None
         else:
             klass, ra = spec
         self.intrude("classifier")
@@ -489,7 +497,9 @@ class World:
         if self.cfg["bs_async"]:
             async def before_sleep_async(ctx, delay):
                 world.trace.append(("bsleep", which, getattr(ctx, "attempt", None), ticks(delay)))
-                if world.cfg["suspend"]:
+                if world.loop is not None:
+                    await world.loop.pause(0.0)
+                elif world.cfg["suspend"]:
                     await Suspend("bsleep")
                 world.fault("before_sleep")
             if self.cfg["awaitable"] == "object":
@@ -514,6 +524,29 @@ class World:
         E.advance(o * TAU)
         self.trace.append(("sleep", which, ticks(s), t0, self.rel()))
 
+    async def _loop_sleep(self, which, s):
+        """Sleeper on the virtual loop: really suspends for s (+ overshoot) of virtual time."""
+        t0 = self.rel()
+        self.fault("sleeper")
+        over = self.cfg["overshoot"]
+        o = over[self.ch.choose("over", len(over), self.cfg["over_free"])] if len(over) > 1 else over[0]
+        if isinstance(o, str):
+            exc = FAULT_TYPES[o]()
+            self.trace.append(("sleep", which, ticks(s), t0, t0, self.reg(exc)))
+            raise exc
+        try:
+            v = float(s)
+        except Exception:  # noqa: BLE001
+            v = 0.0
+        if v != v or v < 0:
+            v = 0.0
+        try:
+            await self.loop.pause(min(v, 1e7) + o * TAU)
+        except asyncio.CancelledError:
+            self.trace.append(("sleep", which, ticks(s), t0, self.rel(), "cut"))
+            raise
+        self.trace.append(("sleep", which, ticks(s), t0, self.rel()))
+
     def _default_sleep(self, s):
         # reached through the patched time.sleep / asyncio.sleep: the library's default sleeper
         self._do_sleep("default", s)
@@ -522,6 +555,9 @@ class World:
         world = self
         if self.cfg["sleeper_async"]:
             async def sleeper_async(s):
+                if world.loop is not None:
+                    await world._loop_sleep(which, s)
+                    return
                 if world.cfg["suspend"]:
                     await Suspend("sleep")
                 world._do_sleep(which, s)
@@ -561,7 +597,7 @@ class World:
         return hook
 
     # -- the operation -------------------------------------------------------------------
-    def _op_body(self):
+    def _op_body(self, advance=True):
         cfg = self.cfg
         self.op_n += 1
         n = self.op_n
@@ -576,6 +612,8 @@ class World:
         durs = cfg["durs"]
         d = durs[self.ch.choose("dur", len(durs), cfg["dur_free"])] if len(durs) > 1 else durs[0]
         t0 = self.rel()
+        if not advance:
+            return n, label, t0, d
         E.advance(d * TAU)
         t1 = self.rel()
         return n, label, t0, t1
@@ -634,6 +672,15 @@ class World:
         return self._op_finish(n, label, t0, t1)
 
     async def op_async(self):
+        if self.loop is not None:
+            n, label, t0, d = self._op_body(advance=False)
+            try:
+                await self.loop.pause(d * TAU)
+            except asyncio.CancelledError:
+                # cut short: by the attempt timeout or by cancellation of the whole call
+                self.trace.append(("op", n, "cut", t0, self.rel(), None))
+                raise
+            return self._op_finish(n, label, t0, self.rel())
         n, label, t0, t1 = self._op_body()
         if self.cfg["suspend"]:
             await Suspend("op")
@@ -655,6 +702,8 @@ class World:
             kw["result_classifier"] = self.result_classifier
         kw["deadline_s"] = INF_DEADLINE if cfg["deadline"] is None else cfg["deadline"] * TAU
         kw["max_attempts"] = cfg["M"]
+        if cfg["attempt_timeout"] is not None:
+            kw["attempt_timeout_s"] = cfg["attempt_timeout"] * TAU
         kw["max_unknown_attempts"] = cfg["max_unknown"]
         if cfg["per_class"]:
             kw["per_class_max_attempts"] = {KL[k]: v for k, v in cfg["per_class"].items()}
@@ -781,7 +830,12 @@ class World:
             else:
                 kw = self._call_kwargs(execute)
                 r = getattr(obj, method)(op, **kw)
-            if is_async:
+            if is_async and self.loop is not None:
+                r = self.drive_loop(r)
+                if r[0] == "raise":
+                    raise r[1]
+                r = r[1]
+            elif is_async:
                 r = self.drive(r)
                 if r[0] == "closed":
                     self.trace.append(("end", "closed"))
@@ -842,6 +896,31 @@ class World:
                 raise
             return ("raise", e)
 
+    def drive_loop(self, coro):
+        """Run the coroutine as a Task on the virtual loop; between loop iterations the harness
+        may cancel the task (one injection per run)."""
+        from .vloop import run_task
+        inject = "cancel" in self.cfg["inject"]
+        state = {"done": False}
+
+        def between(task, i):
+            if not inject or state["done"]:
+                return
+            if self.ch.choose("susp", 2, self.cfg["inject_free"]):
+                state["done"] = True
+                self.trace.append(("thrown", "cancel", None))
+                task.cancel()
+
+        task = run_task(self.loop, coro, between)
+        if self.loop.unhandled:
+            self.trace.append(("loop-unhandled", tuple(self.loop.unhandled)))
+        if task.cancelled():
+            return ("raise", asyncio.CancelledError())
+        exc = task.exception()
+        if exc is not None:
+            return ("raise", exc)
+        return ("ret", task.result())
+
     def _tb_info(self, exc):
         """(innermost frame is the op stub's raise helper, number of helper frames in the chain)"""
         tb = exc.__traceback__
@@ -883,6 +962,64 @@ class World:
     def tick(self, n):
         E.advance(n * TAU)
         self.trace.append(("tick", n))
+
+
+class _FakeFuture:
+    def __init__(self, world, func):
+        self.world = world
+        t_before = world.clock.now
+        n_before = len(world.trace)
+        try:
+            self.value, self.exc = func(), None
+        except BaseException as e:  # noqa: BLE001
+            self.value, self.exc = None, e
+        self.t_before = t_before
+        self.n_before = n_before
+        self.duration = world.clock.now - t_before
+
+    def result(self, timeout=None):
+        w = self.world
+        if timeout is not None and self.duration > timeout:
+            # the attempt is still "running" in its thread: the caller gives up after `timeout`
+            w.clock.now = self.t_before + timeout
+            for i in range(len(w.trace) - 1, self.n_before - 1, -1):
+                r = w.trace[i]
+                if r[0] == "op":
+                    w.trace[i] = ("op", r[1], "cut", r[3], w.rel(), None)
+                    break
+            import concurrent.futures as _cf
+            raise _cf.TimeoutError()
+        if self.exc is not None:
+            raise self.exc
+        return self.value
+
+    def cancel(self):
+        return False
+
+    def done(self):
+        return True
+
+
+class _FakeExecutor:
+    """Owned replacement for ThreadPoolExecutor inside redress.policy.runner.sync_core."""
+
+    world = None
+
+    def __init__(self, *a, **kw):
+        pass
+
+    def submit(self, func, *a, **kw):
+        return _FakeFuture(_FakeExecutor.world, lambda: func(*a, **kw))
+
+    def shutdown(self, *a, **kw):
+        pass
+
+
+def _install_fake_executor(world):
+    import redress.policy.runner.sync_core as sc
+    _FakeExecutor.world = world
+    if hasattr(sc, "ThreadPoolExecutor"):
+        sc.ThreadPoolExecutor = _FakeExecutor
 
 
 def run_single(cfg, entry, ch):
